@@ -23,6 +23,7 @@ import (
 	"strconv"
 
 	pg_query "github.com/cossacklabs/pg_query_go/v5"
+	"github.com/jackc/pgx/v5/pgtype"
 
 	"github.com/cossacklabs/acra/decryptor/base"
 	"github.com/cossacklabs/acra/encryptor/base/config"
@@ -345,11 +346,17 @@ func (p *pgBoundValue) GetData(setting config.ColumnEncryptionSetting) ([]byte, 
 
 	switch p.format {
 	case base.TextFormat:
-		if setting.OnlyEncryption() || setting.IsSearchable() || setting.IsConsistentTokenization() {
-			// binary data in TextFormat received as Hex/Octal encoded values
-			// so we should decode them before processing
-
+		if config.IsBinaryDataOperation(setting) || setting.IsTokenized() {
+			// only binary data (bytea) in TextFormat received as Hex/Octal encoded values and should be decoded before
+			// processing, strings and numbers are passed as is (same as for SQL literals in PgQueryDBDataCoder.Decode)
+			if typeID := setting.GetDBDataTypeID(); typeID != 0 && typeID != pgtype.ByteaOID {
+				return p.data, nil
+			}
 			decoded, err := utils.DecodeEscaped(p.data)
+			if err == utils.ErrDecodeOctalString {
+				// value wasn't escaped on client side, process it as is
+				return p.data, nil
+			}
 			if err != nil {
 				return p.data, err
 			}
